@@ -2,6 +2,7 @@
 TLC processes at once.  Each event costs ~1 ms of TLC time (exact big-natural arithmetic interpreted by TLC), a JVM start
 several seconds, so the events are cut into `jobs` equal batches, one single-worker TLC run (ctx.validate) per batch."""
 import threading
+from fractions import Fraction
 from concurrent.futures import ThreadPoolExecutor
 
 
@@ -34,3 +35,33 @@ def validate_parallel(ctx, module, events, jobs=4, max_batch=60000, cfg=None):
     ctx.cov['transitions'] = base_trans + sum(r['generated'] for r in runs)
     ctx.cov['traces_validated_against_impl'] += len(parts)
     return sorted(res)
+
+
+def mbf_bytes(x, n):
+    """Bytes of the MBF number of n bytes nearest to the Fraction/int x (generator helper; None if out of range)."""
+    x = Fraction(x)
+    if x == 0:
+        return [0] * n
+    neg = x < 0
+    x = abs(x)
+    w = 8 * (n - 1)
+    e = 0
+    # x = m * 2^(e - w) with 2^(w-1) <= m < 2^w
+    num, den = x.numerator, x.denominator
+    e = num.bit_length() - den.bit_length()
+    while Fraction(2) ** e <= x:
+        e += 1
+    while Fraction(2) ** (e - 1) > x:
+        e -= 1
+    m = x / Fraction(2) ** (e - w)
+    m = int(m + Fraction(1, 2))
+    if m >= 1 << w:
+        m >>= 1
+        e += 1
+    eb = e + 128
+    if not 1 <= eb <= 255:
+        return None
+    b = list((m & ((1 << (w - 1)) - 1)).to_bytes(n - 1, 'little'))
+    if neg:
+        b[n - 2] |= 0x80
+    return b + [eb]
